@@ -177,14 +177,12 @@ func (p *Prog) watchRoles() *watchRoles {
 		brokenf("watch roles: cache lookup / per-watch forwarder not found in %s", funcName(w.watchImpl))
 	}
 	// broadcast channel field: the channel the sequencer sends on
-	for _, b := range w.sequencer.Blocks {
-		for _, ins := range b.Instrs {
-			if s, ok := ins.(*ssa.Send); ok {
-				if ld, ok := resolve(s.Chan).(*ssa.UnOp); ok {
-					if fa, ok := ld.X.(*ssa.FieldAddr); ok {
-						w.bcastField = fieldOf(fa)
-					}
-				}
+	// (in the sequencer goroutine's function or a helper it calls)
+	for _, ch := range r.SeqRegion.chainsIn(p, func(ins ssa.Instruction) bool { _, ok := ins.(*ssa.Send); return ok }) {
+		s := ch.target.(*ssa.Send)
+		if ld, ok := resolve(s.Chan).(*ssa.UnOp); ok {
+			if fa, ok := ld.X.(*ssa.FieldAddr); ok && isEventSliceChan(fieldOf(fa).Type()) {
+				w.bcastField = fieldOf(fa)
 			}
 		}
 	}
@@ -514,7 +512,7 @@ func checkC05(p *Prog, res *Result, tier string) {
 						continue
 					}
 					if ld, ok := resolve(s.Chan).(*ssa.UnOp); ok {
-						if fa, ok := ld.X.(*ssa.FieldAddr); ok && fieldOf(fa) == w.bcastField && f != w.sequencer {
+						if fa, ok := ld.X.(*ssa.FieldAddr); ok && fieldOf(fa) == w.bcastField && f != w.sequencer && !(r.SeqRegion.descend(f) && p.onlyWithin(f, w.sequencer, 0)) {
 							bad = true
 							res.bad("C05-R5", "broadcast channel: single sender", p.pos(s.Pos()), funcName(f)+" sends on the broadcast channel besides the sequencer")
 						}
